@@ -79,10 +79,10 @@ OpsC08 ==
        {<<"mtu", c, m>> : c \in (IF Level >= 2 THEN {0, 1} ELSE {0}), m \in {0, 22, 23, 24, 47, 48, 65, 300, 65535}}
   \cup {<<"badmtu", 0, n>> : n \in {1, 2, 4}}
   \cup {<<"disc", 0>>}
-CWValues == IF Level >= 2 THEN 0..14 ELSE {0, 2, 3, 4, 5, 6, 7, 8, 10, 12, 14}
+CWValues == IF Level >= 2 THEN 0..14 ELSE {0, 2, 4, 6, 8, 10, 12, 14}
 OpsC09 ==
        {<<"cw", c, i, v>> : c \in {0, 1}, i \in (IF Level >= 2 THEN 1..3 ELSE 1..2), v \in CWValues}
-  \cup {<<"cc", c, i, v>> : c \in {0, 1}, i \in 1..2, v \in {4, 7, 9, 14}}
+  \cup (IF Level >= 2 THEN {<<"cc", c, i, v>> : c \in {0, 1}, i \in 1..2, v \in {4, 7, 9, 14}} ELSE {<<"cc", 0, 1, 9>>, <<"cc", 1, 2, 7>>})
   \cup {<<"cr", 0, 1>>, <<"cb", 0, 1, 1>>, <<"cb", 1, 2, 3>>, <<"disc", 1>>}
 Ops == CASE Mode = "C06" -> OpsC06 [] Mode = "C08" -> OpsC08 [] Mode = "C09" -> OpsC09
 
